@@ -210,6 +210,7 @@ class LoadFaultEngine(Engine):
     def describe(self, prop):
         return {
             'level': 'fault_enumeration',
+            'evaluations': 'steps',     # an evaluation is one fault site, not one block
             'exhaustive': False,
             'rule': ('one run = one block of %d consecutive corpus statements (repository SQL/xtUML resources, '
                      'bridgepoint/schema.py texts, %d seeded generated databases); fault sites of a statement: truncation '
